@@ -14,6 +14,7 @@ node = {
   'additional_data': bool     -> declares the additional_data parameter
   'attempts': None|int, 'delay': None|number, 'exceptions': None|[ 'ErrA', ...], 'use_default': bool
   'generic': bool             -> produced through build_node() from a generic base
+  'generic_base': str         -> generic nodes with the same value are built from ONE shared variadic base class
   'named': bool               -> explicit `name` attribute (else module_Class derived id)
   'extra_plain': int          -> number of extra plain annotated parameters with defaults
   'doc': bool
@@ -167,9 +168,29 @@ def compact(program, variant=None):
         for k in ('use_default', 'rec_dest', 'additional_data', 'generic'):
             if n.get(k):
                 attrs.append(k)
+        if n.get('generic') and n.get('generic_base'):
+            attrs.append('base=' + n['generic_base'])
         b = vn.get(n['id'])
         if b:
             attrs.append('beh=' + json.dumps(b, sort_keys=True))
         lines.append(f"{n['id']}({', '.join(ps)}) [{' '.join(attrs)}]")
     lines.append(f"output={program['output']}")
     return lines
+
+
+def is_generic(program, n):
+    return bool(n.get('generic')) and bool(n['params']) and n['id'] != input_id(program) \
+        and not n.get('additional_data')
+
+
+def shared_generic_groups(program):
+    """{base id: [node ids]} for generic nodes that are built from one shared base class (>= 2 members which agree
+    on everything that lives on the base: execution mode, tags, base type)"""
+    groups = {}
+    for n in program['nodes']:
+        if is_generic(program, n) and n.get('generic_base') and n.get('named', True):
+            key = (n['generic_base'], n['mode'], bool(n.get('thread_tag')), bool(n.get('rec_dest')),
+                   bool(n.get('plain_base')))
+            groups.setdefault(key, []).append(n['id'])
+    return {'_'.join(str(int(x)) if isinstance(x, bool) else str(x) for x in k): v
+            for k, v in groups.items() if len(v) >= 2}
